@@ -53,6 +53,14 @@ enum RE {
     Busy,
 }
 
+/// the call sent by the `callm_*` targets (Connection::call_method = send_call + receive_reply)
+#[derive(Debug, serde::Serialize)]
+#[serde(tag = "method", content = "parameters")]
+enum OutCall {
+    #[serde(rename = "org.example.Get")]
+    Get { id: u32 },
+}
+
 fn dec_call<'a, M: Deserialize<'a> + std::fmt::Debug>(seg: &'a [u8]) -> String {
     match serde_json::from_slice::<Call<M>>(seg) {
         Ok(c) => format!("ok:{}", digest(&format!("{:?}", c))),
@@ -79,8 +87,8 @@ fn oracle(target: &str, seg: &[u8]) -> String {
         "call_borrowed" => dec_call::<Borrowed>(seg),
         "call_lenient" => dec_call::<Lenient>(seg),
         "call_value" => dec_call::<Value>(seg),
-        "reply_typed" => dec_reply::<RP>(seg),
-        "reply_value" => dec_reply::<Value>(seg),
+        "reply_typed" | "callm_typed" => dec_reply::<RP>(seg),
+        "reply_value" | "callm_value" => dec_reply::<Value>(seg),
         t => panic!("unknown target {t}"),
     }
 }
@@ -176,6 +184,15 @@ fn run_case(case: &Value) -> Value {
         }
         "reply_value" => {
             run_ops!(case, c => c.receive_reply::<Value, RE>(), fmt_reply)
+        }
+        // the convenience wrapper: every incarnation sends the call again, then receives
+        "callm_typed" => {
+            let call = Call::new(OutCall::Get { id: 7 });
+            run_ops!(case, c => c.call_method::<OutCall, RP, RE>(&call), fmt_reply)
+        }
+        "callm_value" => {
+            let call = Call::new(OutCall::Get { id: 7 });
+            run_ops!(case, c => c.call_method::<OutCall, Value, RE>(&call), fmt_reply)
         }
         t => panic!("unknown target {t}"),
     };
